@@ -305,5 +305,26 @@ Fixpoint obj_size (o : obj) : nat :=
   | Node _ cs => S (fold_right (fun x a => obj_size x + a)%nat O cs)
   end.
 
+(* [steps] is a totality device of the model, not part of the implementation: the loop runs once per
+   visited node, i.e. length of the node array when flatten succeeds, at most obj_size otherwise *)
+Definition iter_bound (c : cfg) (o : obj) : nat :=
+  match flat c (S (c_limit c)) o with
+  | Ok r => length (snd (fst r))
+  | Err _ => obj_size o
+  end.
+
 Definition tree_iter_list (c : cfg) (o : obj) : res (list obj) :=
-  iter_drain c (S (obj_size o)) [(o, S (c_limit c))].
+  iter_drain c (S (iter_bound c o)) [(o, S (c_limit c))].
+
+(* ops.py tree_leaves / tree_structure / tree_paths / tree_is_leaf / all_leaves *)
+Definition tree_leaves (c : cfg) (o : obj) : res (list obj) :=
+  do r <- flatten c o ;; Ok (fst r).
+Definition tree_structure (c : cfg) (o : obj) : res spec :=
+  do r <- flatten c o ;; Ok (snd r).
+Definition tree_paths (c : cfg) (o : obj) : res (list path) :=
+  do r <- flatten_with_path c o ;; let '(ps, _, _) := r in Ok ps.
+
+(* flatten.cpp IsLeafImpl / AllLeavesImpl *)
+Definition tree_is_leaf (c : cfg) (o : obj) : bool :=
+  apply_pred c o || kind_eqb (fst (get_kind c o)) KdLeaf.
+Definition all_leaves (c : cfg) (l : list obj) : bool := forallb (tree_is_leaf c) l.
